@@ -1287,6 +1287,246 @@ theorem rewriteRaw_payload (k : LoopCfg) (hk : BlankIndent k) (opener closer ori
     rw [← h, payload_pushStr, hX]
     simp
 
+
+/-! ## the lines fit, unless nothing can be done -/
+
+theorem width_append (a b : List Char) : width (a ++ b) = width a + width b := by
+  induction a with
+  | nil => simp [width]
+  | cons c r ih => simp [width, ih]; omega
+
+/-- before `max_width_index_in_input` every prefix fits -/
+theorem maxWidthIndexGo_fits (mw : Nat) : ∀ (l : List Char) (i w ci : Nat) (j : Nat), ci ≤ i →
+    j < maxWidthIndexGo mw l i w ci - i → w + width (l.take (j + 1)) ≤ mw
+  | [], i, w, ci, j, hci, h => by
+    simp [maxWidthIndexGo] at h
+    omega
+  | g :: r, i, w, ci, j, hci, h => by
+    unfold maxWidthIndexGo at h
+    split at h
+    · omega
+    · rename_i hle
+      cases j with
+      | zero => simp [width]; omega
+      | succ j =>
+        have hr : r ≠ [] := by
+          intro hr; subst hr; simp [maxWidthIndexGo] at h
+        have hrange := maxWidthIndexGo_range mw r (i + 1) (w + cw g) i hr
+        have := maxWidthIndexGo_fits mw r (i + 1) (w + cw g) i j (by omega) (by omega)
+        simp only [List.take_succ_cons, width]
+        omega
+
+theorem maxWidthIndex_fits (mw : Nat) (l : List Char) (j : Nat) (h : j < maxWidthIndex mw l) :
+    width (l.take (j + 1)) ≤ mw := by
+  have := maxWidthIndexGo_fits mw l 0 0 0 j (by omega) (by simpa [maxWidthIndex] using h)
+  omega
+
+/-- the reasons for which a line may be longer than the width: a URL is detected at the limit, or there is
+no boundary (white space, or punctuation outside `::`) between `MIN_STRING` and the limit -/
+def Unbreakable (mw : Nat) (input : List Char) : Prop :=
+  (detectUrl input (maxWidthIndex mw input)).isSome = true ∨
+    ∀ p, MIN_STRING ≤ p → p < maxWidthIndex mw input → isValidLinebreak input p = false
+
+theorem lastValidBelow_none {input : List Char} : ∀ {n : Nat}, lastValidBelow input n = none →
+    ∀ p, p < n → isValidLinebreak input p = false
+  | 0, _, p, hp => by omega
+  | n + 1, h, p, hp => by
+    unfold lastValidBelow at h
+    split at h
+    · cases h
+    · rename_i hv
+      by_cases hpn : p = n
+      · subst hpn; simpa using hv
+      · exact lastValidBelow_none h p (by omega)
+
+theorem lastValidBelow_max {input : List Char} : ∀ {n i : Nat}, lastValidBelow input n = some i →
+    ∀ p, i < p → p < n → isValidLinebreak input p = false
+  | 0, _, h, _, _, _ => by simp [lastValidBelow] at h
+  | n + 1, i, h, p, hip, hp => by
+    unfold lastValidBelow at h
+    split at h
+    · cases h; omega
+    · rename_i hv
+      by_cases hpn : p = n
+      · subst hpn; simpa using hv
+      · exact lastValidBelow_max h p hip (by omega)
+
+/-- `break_string` breaks before the limit, or the input is `Unbreakable` there. -/
+theorem breakString_cases_fits (mw : Nat) (te : Bool) (le input : List Char) :
+    breakString mw te le input = .endOfInput input ∨
+      ∃ index, index < input.length ∧ (index < maxWidthIndex mw input ∨ Unbreakable mw input) ∧
+        breakString mw te le input = breakAt te input index := by
+  unfold breakString
+  simp only
+  split
+  · left; rfl
+  · rename_i hm
+    have hne := ne_nil_of_maxWidthIndex hm
+    have hlt := maxWidthIndex_lt mw input hne
+    split
+    · right
+      exact ⟨maxWidthIndex mw input - 1, by omega, Or.inl (by omega), rfl⟩
+    · cases hu : detectUrl input (maxWidthIndex mw input) with
+      | some urlEnd =>
+        right
+        exact ⟨urlEnd, detectUrl_lt hlt hu, Or.inr (Or.inl (by simp [hu])), rfl⟩
+      | none =>
+        simp only
+        have hright : searchRight te input (maxWidthIndex mw input) = .endOfInput input ∨
+            ∃ index, index < input.length ∧ searchRight te input (maxWidthIndex mw input) = breakAt te input index := by
+          rcases searchRight_cases te input (maxWidthIndex mw input) with h | ⟨i, hi, _, h⟩
+          · exact Or.inl h
+          · exact Or.inr ⟨i, hi, h⟩
+        have hpunct : searchPunct te input (maxWidthIndex mw input) = .endOfInput input ∨
+            ∃ index, index < input.length ∧ (index < maxWidthIndex mw input ∨ Unbreakable mw input) ∧
+              searchPunct te input (maxWidthIndex mw input) = breakAt te input index := by
+          unfold searchPunct
+          cases hl : lastValidBelow input (maxWidthIndex mw input) with
+          | none =>
+            simp only
+            rcases hright with h | ⟨i, hi, h⟩
+            · exact Or.inl h
+            · exact Or.inr ⟨i, hi, Or.inr (Or.inr (fun p _ hp => lastValidBelow_none hl p hp)), h⟩
+          | some idx =>
+            obtain ⟨h1, _⟩ := lastValidBelow_lt hl
+            simp only
+            split
+            · exact Or.inr ⟨idx, by omega, Or.inl h1, rfl⟩
+            · rename_i hmin
+              rcases hright with h | ⟨i, hi, h⟩
+              · exact Or.inl h
+              · exact Or.inr ⟨i, hi, Or.inr (Or.inr (fun p hp1 hp2 => lastValidBelow_max hl p (by omega) hp2)), h⟩
+        unfold searchBreak
+        cases hr : rposition isWs (input.take (maxWidthIndex mw input)) with
+        | none => exact hpunct
+        | some idx =>
+          have h1 := rposition_lt hr
+          simp only [List.length_take] at h1
+          simp only
+          split
+          · exact Or.inr ⟨idx, by omega, Or.inl (by omega), rfl⟩
+          · exact hpunct
+
+theorem trimEndWs_append_ws (a b : List Char) (hb : b.all isWs = true) : trimEndWs (a ++ b) = trimEndWs a := by
+  unfold trimEndWs
+  rw [List.reverse_append]
+  have : ∀ (x y : List Char), x.all isWs = true → (x ++ y).dropWhile isWs = y.dropWhile isWs := by
+    intro x y hx
+    induction x with
+    | nil => rfl
+    | cons c r ih =>
+      simp only [List.all_cons, Bool.and_eq_true] at hx
+      simp [hx.1, ih hx.2]
+  rw [this _ _ (by simpa using hb)]
+
+theorem all_isWs_of_all_blank {b : List Char} (hb : b.all blank = true) : b.all isWs = true := by
+  rw [List.all_eq_true] at hb ⊢
+  intro c hc
+  have := hb c hc
+  unfold blank at this
+  simp at this
+  exact this.1
+
+/-- `trim_end()` gives a prefix -/
+theorem trimEndWs_prefix (a : List Char) : ∃ rest, a = trimEndWs a ++ rest := by
+  unfold trimEndWs
+  have : ∀ l : List Char, ∃ pre, l = pre ++ l.dropWhile isWs := by
+    intro l
+    exact ⟨l.takeWhile isWs, (List.takeWhile_append_dropWhile).symm⟩
+  obtain ⟨pre, hpre⟩ := this a.reverse
+  refine ⟨pre.reverse, ?_⟩
+  have := congrArg List.reverse hpre
+  simpa using this
+
+theorem width_trimEndWs_le (a : List Char) : width (trimEndWs a) ≤ width a := by
+  obtain ⟨rest, h⟩ := trimEndWs_prefix a
+  have := congrArg width h
+  rw [width_append] at this
+  omega
+
+theorem width_take_le (l : List Char) (a b : Nat) (h : a ≤ b) : width (l.take a) ≤ width (l.take b) := by
+  have : l.take b = l.take a ++ (l.take b).drop a := by
+    have h1 : l.take a = (l.take b).take a := by rw [List.take_take, Nat.min_eq_left h]
+    rw [h1, List.take_append_drop]
+  rw [this, width_append]
+  omega
+
+/-- The line `break_at(index)` returns is, up to trailing white space, a prefix of `input[0..=index]`. -/
+theorem breakAt_line_width (te : Bool) (input : List Char) (index : Nat) (hi : index < input.length)
+    (line : List Char) (len : Nat)
+    (h : breakAt te input index = .lineEnd line len ∨ breakAt te input index = .endWithLineFeed line len) :
+    width (trimEndWs line) ≤ width (input.take (index + 1)) := by
+  have himw := indexMinusWs_le input index hi
+  have hnlws : ['\n'].all isWs = true := by decide
+  rcases breakAt_cases te input index hi with ⟨i, hle, hnl, _, heq⟩ | ⟨_, heq⟩
+  · rw [heq] at h
+    have hline : line = (if te then trimEndWs (input.take i) else input.take i) ++ ['\n'] := by
+      rcases h with h | h <;> simp at h
+      exact h.1.symm
+    rw [hline, trimEndWs_append_ws _ _ hnlws]
+    have h1 : width (input.take i) ≤ width (input.take (index + 1)) := width_take_le _ _ _ (by omega)
+    cases te with
+    | true =>
+      simp only [if_true]
+      have := width_trimEndWs_le (trimEndWs (input.take i))
+      have := width_trimEndWs_le (input.take i)
+      omega
+    | false =>
+      simp only [Bool.false_eq_true, if_false]
+      have := width_trimEndWs_le (input.take i)
+      omega
+  · rw [heq] at h
+    have h2 : width (input.take (indexMinusWs input index + 1)) ≤ width (input.take (index + 1)) :=
+      width_take_le _ _ _ (by omega)
+    rcases breakAtRight_cases te input index (indexMinusWs input index) hi with
+      ⟨ws, rest, _, hws, _, heq2⟩ | ⟨ws, c, rest, _, hws, _, _, heq2⟩ | ⟨_, heq2⟩
+    · rw [heq2] at h
+      have hline : line = input.take (index + 1) ++ ws ++ ['\n'] := by
+        rcases h with h | h <;> simp at h
+        rw [List.append_assoc]; exact h.1.symm
+      rw [hline, trimEndWs_append_ws _ _ hnlws, trimEndWs_append_ws _ _ (all_isWs_of_all_blank hws)]
+      exact width_trimEndWs_le _
+    · rw [heq2] at h
+      have hline : line = if te then input.take (indexMinusWs input index + 1) else input.take (index + 1) ++ ws := by
+        rcases h with h | h <;> simp at h
+        exact h.1.symm
+      rw [hline]
+      cases te with
+      | true =>
+        simp only [if_true]
+        have := width_trimEndWs_le (input.take (indexMinusWs input index + 1))
+        omega
+      | false =>
+        simp only [Bool.false_eq_true, if_false]
+        rw [trimEndWs_append_ws _ _ (all_isWs_of_all_blank hws)]
+        exact width_trimEndWs_le _
+    · rw [heq2] at h
+      cases te with
+      | true =>
+        simp only [if_true] at h
+        have hline : line = input.take (indexMinusWs input index + 1) := by
+          rcases h with h | h <;> simp at h
+          exact h.1.symm
+        rw [hline]
+        have := width_trimEndWs_le (input.take (indexMinusWs input index + 1))
+        omega
+      | false => simp at h
+
+/-- **A line that `break_string` returns fits into `max_width`** (its trailing white space apart), unless the
+input is `Unbreakable` at the limit. -/
+theorem breakString_line_fits (mw : Nat) (te : Bool) (le input line : List Char) (len : Nat)
+    (h : breakString mw te le input = .lineEnd line len ∨ breakString mw te le input = .endWithLineFeed line len) :
+    width (trimEndWs line) ≤ mw ∨ Unbreakable mw input := by
+  rcases breakString_cases_fits mw te le input with heoi | ⟨index, hi, hreason, heq⟩
+  · rw [heoi] at h; simp at h
+  · rcases hreason with hlt | hu
+    · left
+      rw [heq] at h
+      have h1 := breakAt_line_width te input index hi line len h
+      have h2 := maxWidthIndex_fits mw input index hlt
+      omega
+    · exact Or.inr hu
+
 /-! ## from a `StringFormat` to the constants of the loop -/
 
 theorem all_isContWs_replicate_tab (n : Nat) : (List.replicate n '\t').all isContWs = true := by
